@@ -342,14 +342,14 @@ Definition is_data_op (o : op) : bool :=
 Definition tx_grow (d d' : db) (extra : list change) : Prop :=
   d_tx d' = match d_tx d with
             | None => None
-            | Some x => Some (mkTxn (x_cat x) (x_tabs x) (x_sps x) (x_log x ++ extra))
+            | Some x => Some (mkTxn (x_cat x) (x_tabs x) (x_ixs x) (x_sps x) (x_log x ++ extra))
             end.
 
 Lemma tx_grow_refl d : tx_grow d d [].
-Proof. unfold tx_grow. destruct (d_tx d) as [[c T s l]|]; cbn; [now rewrite app_nil_r|reflexivity]. Qed.
+Proof. unfold tx_grow. destruct (d_tx d) as [[c T ixs s l]|]; cbn; [now rewrite app_nil_r|reflexivity]. Qed.
 
 Lemma tx_grow_same_tx c T U d : tx_grow d (mkDb c T U (d_tx d)) [].
-Proof. unfold tx_grow. cbn. destruct (d_tx d) as [[c0 T0 s l]|]; cbn; [now rewrite app_nil_r|reflexivity]. Qed.
+Proof. unfold tx_grow. cbn. destruct (d_tx d) as [[c0 T0 ixs s l]|]; cbn; [now rewrite app_nil_r|reflexivity]. Qed.
 
 Lemma tx_grow_record c T U d cs : tx_grow d (record (mkDb c T U (d_tx d)) cs) cs.
 Proof. unfold tx_grow, record. cbn. destruct (d_tx d); reflexivity. Qed.
@@ -537,7 +537,7 @@ Proof.
     destruct o; try discriminate Hd; cbn [step gstep].
     + unfold begin_txn. rewrite E. cbn [fst]. now rewrite E.
     + unfold commit_txn. rewrite E. reflexivity.
-    + unfold rollback_txn. rewrite E. reflexivity.
+    + unfold rollback_txn. rewrite E. destruct (rebuild_defs _ _ _). reflexivity.
     + unfold create_savepoint. rewrite E. cbn [fst d_tx d_tabs x_log x_sps].
       apply stack_inv_push; [lia|assumption].
     + unfold release_savepoint. rewrite E.
